@@ -1,7 +1,255 @@
 /-
-  Helper lemmas (RunG).
+  Helper lemmas (RunG): the run-level cache (`addExportPaths` followed by the scan directories), the canonical
+  candidate order (`sortBy`, `pruneLinks`) and `populateSearches`.
 -/
 import TB.Spec.ExportSpec
+import TB.Lemmas.RunB
+import TB.Lemmas.RunC
 namespace TB.RunG
+open TB.RC TB.RB
+
+/-! ### `addExportPaths` -/
+
+theorem addExportPaths_cons (st : St) (c : Cache) (e : TEntry) (es : List TEntry) :
+    addExportPaths st c (e :: es) =
+      if e.isPad then addExportPaths st c es else
+      if (st.openr e.fullTarget).2 = false then addExportPaths (st.openr e.fullTarget).1 c es else
+      match (st.openr e.fullTarget).1.fs.look e.fullTarget with
+      | .file i =>
+        if ((st.openr e.fullTarget).1.fs.content i).length == e.fileLength
+        then addExportPaths (st.openr e.fullTarget).1 (cacheInsert c e.fileLength e.fullTarget i) es
+        else addExportPaths (st.openr e.fullTarget).1 c es
+      | _ => addExportPaths (st.openr e.fullTarget).1 c es := by
+  rw [addExportPaths]
+  by_cases hp : e.isPad = true
+  · simp [hp]
+  · simp only [hp]
+    cases hok : (st.openr e.fullTarget).2
+    · simp
+    · simp
+      cases (st.openr e.fullTarget).1.fs.look e.fullTarget <;> rfl
+
+/-- `addExportPaths` only ever inserts: a registration survives -/
+theorem reg_addExportPaths {c : Cache} {l : Nat} {p : Path} (h : Reg c l p) (st : St) (table : List TEntry) :
+    Reg (addExportPaths st c table).2 l p := by
+  induction table generalizing st c with
+  | nil => exact h
+  | cons e es ih =>
+    rw [addExportPaths_cons]
+    split
+    · exact ih h st
+    · split
+      · exact ih h _
+      · split
+        · split
+          · exact ih (reg_insert h _ _ _) _
+          · exact ih h _
+        · exact ih h _
+
+theorem addExportPaths_fs (st : St) (c : Cache) (table : List TEntry) :
+    (addExportPaths st c table).1.fs = st.fs := by
+  induction table generalizing st c with
+  | nil => rfl
+  | cons e es ih =>
+    rw [addExportPaths_cons]
+    split
+    · exact ih st c
+    · split
+      · rw [ih, St.openr_fs]
+      · split
+        · split
+          · rw [ih, St.openr_fs]
+          · rw [ih, St.openr_fs]
+        · rw [ih, St.openr_fs]
+
+/-- without fault points `openr` succeeds exactly on files and directories -/
+theorem openr_file_ok (st : St) (hf : st.faults = []) (p : Path) (i : Nat) (hl : st.fs.look p = .file i) :
+    (st.openr p).2 = true := by
+  unfold St.openr
+  rw [St.op_nofault _ _ _ _ (by rw [hf]; rfl)]
+  simp [hl]
+
+/-- the step for `e` registers its export image if that is a regular file of the declared length -/
+theorem addExportPaths_registers (st : St) (hf : st.faults = []) (c : Cache) (table : List TEntry) (e : TEntry)
+    (i : Nat) (he : e ∈ table) (hpad : e.isPad = false)
+    (hlook : st.fs.look e.fullTarget = .file i) (hlen : (st.fs.content i).length = e.fileLength) :
+    Reg (addExportPaths st c table).2 e.fileLength e.fullTarget := by
+  induction table generalizing st c with
+  | nil => cases he
+  | cons e0 es ih =>
+    rcases List.mem_cons.1 he with rfl | hmem
+    · rw [addExportPaths_cons]
+      have hok := openr_file_ok st hf e.fullTarget i hlook
+      have hfs := St.openr_fs st e.fullTarget
+      simp only [hpad, hok, Bool.false_eq_true, if_false]
+      rw [hfs, hlook]
+      simp only [hlen, beq_self_eq_true, if_true]
+      exact reg_addExportPaths (reg_insert_self _ _ _ _) _ _
+    · rw [addExportPaths_cons]
+      have hfs := St.openr_fs st e0.fullTarget
+      have hfa : (st.openr e0.fullTarget).1.faults = [] := by rw [St.openr_faults]; exact hf
+      have hlook' : (st.openr e0.fullTarget).1.fs.look e.fullTarget = .file i := by rw [hfs]; exact hlook
+      have hlen' : ((st.openr e0.fullTarget).1.fs.content i).length = e.fileLength := by rw [hfs]; exact hlen
+      split
+      · exact ih st hf c hmem hlook hlen
+      · split
+        · exact ih _ hfa c hmem hlook' hlen'
+        · split
+          · split
+            · exact ih _ hfa _ hmem hlook' hlen'
+            · exact ih _ hfa c hmem hlook' hlen'
+          · exact ih _ hfa c hmem hlook' hlen'
+
+/-! ### the scan directories -/
+
+theorem reg_addByDirectory {c : Cache} {l : Nat} {p : Path} (h : Reg c l p) (fs : Fs) (dir : Path)
+    (lengths : List Nat) : Reg (addByDirectory fs c dir lengths) l p := by
+  rw [addByDirectory_eq]
+  exact reg_foldl h fs dir lengths fs.files
+
+theorem reg_scan {c : Cache} {l : Nat} {p : Path} (h : Reg c l p) (fs : Fs) (lengths : List Nat)
+    (scan : List PathArg) :
+    Reg (scan.foldl (fun c d => addByDirectory fs c d.path lengths) c) l p := by
+  induction scan generalizing c with
+  | nil => exact h
+  | cons d ds ih => exact ih (reg_addByDirectory h fs d.path lengths)
+
+theorem scan_registers (fs : Fs) (lengths : List Nat) (scan : List PathArg) (c : Cache) (d : PathArg)
+    (p : Path) (i : Nat) (hd : d ∈ scan) (hmem : (p, i) ∈ fs.files)
+    (hunder : d.path.length < p.length ∧ p.take d.path.length = d.path)
+    (hlen : lengths.contains (fs.content i).length = true) :
+    Reg (scan.foldl (fun c d => addByDirectory fs c d.path lengths) c) (fs.content i).length p := by
+  induction scan generalizing c with
+  | nil => cases hd
+  | cons d0 ds ih =>
+    rcases List.mem_cons.1 hd with rfl | h
+    · rw [List.foldl_cons]
+      apply reg_scan
+      rw [addByDirectory_eq]
+      exact foldl_registers fs d.path lengths fs.files c p i hmem hunder hlen
+    · exact ih _ h
+
+theorem uniqueLengths_contains (table : List TEntry) (e : TEntry) (he : e ∈ table) (hpad : e.isPad = false) :
+    (uniqueLengths table).contains e.fileLength = true := by
+  rw [List.contains_iff_mem]
+  unfold uniqueLengths
+  exact List.mem_map.2 ⟨e, List.mem_filter.2 ⟨he, by simp [hpad]⟩, rfl⟩
+
+/-! ### the canonical candidate order -/
+
+theorem mem_insertBy {α : Type} (lt : α → α → Bool) (a x : α) (l : List α) :
+    x ∈ insertBy lt a l ↔ x = a ∨ x ∈ l := by
+  induction l with
+  | nil => simp [insertBy]
+  | cons b bs ih =>
+    unfold insertBy
+    split
+    · simp
+    · simp only [List.mem_cons, ih]
+      constructor
+      · rintro (h | h | h)
+        · exact Or.inr (Or.inl h)
+        · exact Or.inl h
+        · exact Or.inr (Or.inr h)
+      · rintro (h | h | h)
+        · exact Or.inr (Or.inl h)
+        · exact Or.inl h
+        · exact Or.inr (Or.inr h)
+
+theorem mem_sortBy {α : Type} (lt : α → α → Bool) (x : α) (l : List α) : x ∈ sortBy lt l ↔ x ∈ l := by
+  unfold sortBy
+  induction l with
+  | nil => simp
+  | cons a as ih => rw [List.foldr_cons, mem_insertBy, ih]; simp
+
+/-- every inode of `l` not yet seen is represented in the pruned list by one of its names -/
+theorem pruneLinks_keeps (l : List (Path × Nat)) (seen : List Nat) (p : Path) (i : Nat)
+    (hmem : (p, i) ∈ l) (hns : i ∉ seen) : ∃ q ∈ pruneLinks l seen, (q, i) ∈ l := by
+  induction l generalizing seen with
+  | nil => cases hmem
+  | cons a rest ih =>
+    obtain ⟨p0, i0⟩ := a
+    rw [pruneLinks]
+    by_cases hs : seen.contains i0 = true
+    · rw [if_pos hs]
+      rcases List.mem_cons.1 hmem with h | h
+      · cases h
+        exact absurd (List.contains_iff_mem.1 hs) hns
+      · obtain ⟨q, hq, hqi⟩ := ih seen h hns
+        exact ⟨q, hq, List.mem_cons_of_mem _ hqi⟩
+    · rw [if_neg hs]
+      by_cases hi : i = i0
+      · subst hi
+        exact ⟨p0, by simp, by simp⟩
+      · rcases List.mem_cons.1 hmem with h | h
+        · cases h
+          exact absurd rfl hi
+        · obtain ⟨q, hq, hqi⟩ := ih (i0 :: seen) h (by simp [hi, hns])
+          exact ⟨q, List.mem_cons_of_mem _ hq, List.mem_cons_of_mem _ hqi⟩
+
+theorem canonicalSearches_keeps (e : TEntry) (m : List (Path × Nat)) :
+    ∀ x ∈ m, ∃ q ∈ canonicalSearches e m, ∃ y ∈ m, y.1 = q ∧ y.2 = x.2 := by
+  intro x hx
+  unfold canonicalSearches
+  obtain ⟨q, hq, hqi⟩ := pruneLinks_keeps _ [] x.1 x.2 ((mem_sortBy _ _ _).2 hx) (by simp)
+  exact ⟨q, hq, (q, x.2), (mem_sortBy _ _ _).1 hqi, rfl, rfl⟩
+
+/-! ### `populateSearches` -/
+
+/-- the head of the populated table: same identity, and a candidate list that is either an admissible
+    observation or the canonical one -/
+theorem populateSearches_cons (c : Cache) (obs : List (Nat × List Path)) (e : TEntry) (es : List TEntry) :
+    ∃ h, (populateSearches c obs (e :: es)).1 = h :: (populateSearches c obs es).1 ∧
+      h.id = e.id ∧ h.fullTarget = e.fullTarget ∧
+      (e.isPad = false → ∀ m, cacheGet c e.fileLength = some m →
+        ∃ paths, h.searches = some paths ∧ (validSearches e m paths = true ∨ paths = canonicalSearches e m)) := by
+  rw [populateSearches]
+  by_cases hp : e.isPad = true
+  · simp [hp]
+  · simp only [hp, Bool.false_eq_true, if_false]
+    cases hc : cacheGet c e.fileLength with
+    | none => simp
+    | some m =>
+      simp only
+      cases ho : Option.map (fun x => x.2) (obs.find? (fun o => o.1 == e.id)) with
+      | none =>
+        simp only
+        refine ⟨_, rfl, rfl, rfl, ?_⟩
+        intro _ m' hm'
+        cases hm'
+        exact ⟨_, rfl, Or.inr rfl⟩
+      | some o =>
+        simp only
+        by_cases hv : validSearches e m o = true
+        · rw [if_pos hv]
+          refine ⟨_, rfl, rfl, rfl, ?_⟩
+          intro _ m' hm'
+          cases hm'
+          exact ⟨_, rfl, Or.inl hv⟩
+        · rw [if_neg hv]
+          refine ⟨_, rfl, rfl, rfl, ?_⟩
+          intro _ m' hm'
+          cases hm'
+          exact ⟨_, rfl, Or.inr rfl⟩
+
+theorem populate_keeps (c : Cache) (obs : List (Nat × List Path)) (table : List TEntry) (e : TEntry)
+    (m : List (Path × Nat)) (he : e ∈ table) (hpad : e.isPad = false) (hm : cacheGet c e.fileLength = some m) :
+    ∃ e' ∈ (populateSearches c obs table).1, e'.id = e.id ∧ e'.fullTarget = e.fullTarget ∧
+      ∃ paths, e'.searches = some paths ∧ ∀ x ∈ m, ∃ q ∈ paths, ∃ y ∈ m, y.1 = q ∧ y.2 = x.2 := by
+  induction table with
+  | nil => cases he
+  | cons e0 es ih =>
+    obtain ⟨h, heq, hid, hft, hs⟩ := populateSearches_cons c obs e0 es
+    rw [heq]
+    rcases List.mem_cons.1 he with rfl | hmem
+    · obtain ⟨paths, hps, hor⟩ := hs hpad m hm
+      refine ⟨h, by simp, hid, hft, paths, hps, ?_⟩
+      rcases hor with hv | rfl
+      · intro x hx
+        obtain ⟨p, hp, hy, _⟩ := validSearches_mem hv x hx
+        exact ⟨p, hp, hy⟩
+      · exact canonicalSearches_keeps e m
+    · obtain ⟨e', he', r⟩ := ih hmem
+      exact ⟨e', List.mem_cons_of_mem _ he', r⟩
 
 end TB.RunG
